@@ -12,12 +12,14 @@ requested one by the stated float uncertainty (position slack = steepest leg slo
 import math
 from fractions import Fraction as Fr
 
+import numpy as np
 from hypothesis import strategies as st
 
 import tracklib.algo.interpolation as interp
 from tracklib.algo.cinematics import computeAbsCurv
 from tracklib.core.obs import Obs
 from tracklib.core.obs_coords import ENUCoords
+from tracklib.core.obs_time import ObsTime
 from tracklib.core.track import Track
 
 from vt import gen
@@ -48,6 +50,21 @@ ASSUMPTIONS = [
     "reference's timestamps at the time of that call; the spline calls are not judged (not the subject of the property) and "
     "may fail - they only must not affect the later calls",
     "spatial timestamps: +-1 ms + 5e-3 ms (float seconds ~1.6e9 weighted by two rounded weights) + time slope x abscissa uncertainty",
+    "time-zone label (case['zone'], case['zonehow']): the timestamps of the track may carry a non-zero zone, given to the ObsTime "
+    "constructor (zone=z), set with Track.setTimeZone(z), or obtained with Track.convertToTimeZone(z) from a track built z hours "
+    "earlier (only when every timestamp is a multiple of 1/8 s, so that the conversion is exact; the fixes after the conversion "
+    "are those of the case).  In tracklib the zone is a label: the fields of an ObsTime are the instant (toAbsTime, -, the "
+    "comparisons ignore the zone), so 'the requested instant' / 'the linearly interpolated timestamp' are judged on the fields "
+    "(year..ms -> epoch ms), whatever the labels of the track, of the reference (case['refzone']: instants of a list / "
+    "reference track labelled with a zone of their own) and of the result; nothing is demanded of the label of the result",
+    "number types (case['tnum'], case['cnum']): the timestamp fields of the track are Python ints, or the seconds field / all "
+    "seven fields numpy int64 or int32 scalars (int32 only for tracks ending before 2038-01-18: epoch seconds must fit the "
+    "field's type, else undef); the coordinates are Python floats, Python ints where integer-valued (case['ints']) or numpy "
+    "float64 scalars.  The oracle works on the plain numbers of the case.  (numpy float32 coordinates are not generated: the "
+    "library's weights x coordinates would be float32 products and the 1e-9 comparison meaningless)",
+    "type of the numeric step (case['stepnum'], temporal_step and spatial_exact): a Python int / float as before, or the same "
+    "number as numpy float64, int64 / int32 (whole numbers) or float32 (steps exactly representable in float32) scalar - "
+    "'steps given as a number'; the expectation is that of the plain number",
 ]
 
 BASE_TOL = 1e-9
@@ -72,6 +89,73 @@ def _valid_track(case):
     return all(len(p) == 3 and all(math.isfinite(c) for c in p) for p in pts)
 
 
+INT32_MAX_MS = (2 ** 31 - 86400) * 1000
+TNUMS = ("py", "int64:sec", "int64:all", "int32:sec", "int32:all")
+ZONEHOWS = ("ctor", "set", "convert")
+HOUR = 3600000
+
+
+def _obstime(ms, tnum="py", zone=0):
+    f = gen.fields_of_ms(ms)
+    if tnum != "py":
+        typ = np.int64 if tnum.startswith("int64") else np.int32
+        f = [typ(v) for v in f] if tnum.endswith(":all") else [f[0], f[1], f[2], f[3], f[4], typ(f[5]), f[6]]
+    return ObsTime(*f, zone=zone) if zone else ObsTime(*f)
+
+
+def _ms_of(t):
+    return gen.ms_of_fields(int(t.year), int(t.month), int(t.day), int(t.hour), int(t.min), int(t.sec), int(t.ms))
+
+
+def _make_track(case, pts, T, feats):
+    """the fixes pts / T (epoch ms) as a Track, with the number types and the time-zone label of the case"""
+    ints, np64 = bool(case.get("ints")), case.get("cnum") == "np64"
+    tnum, zone, how = case.get("tnum", "py"), int(case.get("zone") or 0), case.get("zonehow", "ctor")
+    convert = zone != 0 and how == "convert"
+
+    def co(v):
+        return np.float64(v) if np64 else gen.as_int_if_integral(v) if ints else v
+
+    tr = Track([], 1)
+    for p, t in zip(pts, T):
+        ts = _obstime(t - HOUR * zone, tnum) if convert else _obstime(t, tnum, zone if how == "ctor" else 0)
+        tr.addObs(Obs(ENUCoords(co(p[0]), co(p[1]), co(p[2])), ts))
+    for name, vals in feats.items():
+        tr.createAnalyticalFeature(name, list(vals))
+    if convert:
+        tr.convertToTimeZone(zone)
+    elif zone and how == "set":
+        tr.setTimeZone(zone)
+    return tr
+
+
+def _zone_ok(case, T):
+    """False: the case asks for something outside the domain (see ASSUMPTIONS)"""
+    tnum, zone, how = case.get("tnum", "py"), case.get("zone") or 0, case.get("zonehow", "ctor")
+    if tnum not in TNUMS or how not in ZONEHOWS or not isinstance(zone, int) or abs(zone) > 14:
+        return False
+    if case.get("cnum") not in (None, "float", "np64"):
+        return False
+    if tnum.startswith("int32") and T[-1] > INT32_MAX_MS:
+        return False
+    if zone and how == "convert":
+        if any(t % TICK for t in T) or T[0] - 1000 - HOUR * zone < 0 or T[-1] - HOUR * zone > gen.MAX_MS:
+            return False
+    return True
+
+
+def _cls_types(case):
+    zone = case.get("zone") or 0
+    cls = ["zone:0" if not zone else "zone:%s-by-%s" % ("east" if zone > 0 else "west", case.get("zonehow", "ctor"))]
+    cls.append("time-fields:" + case.get("tnum", "py"))
+    if case.get("cnum") == "np64":
+        cls.append("coords:np64")
+    rz = case.get("refzone")
+    if rz is not None:
+        cls.append("ref-zone:" + ("0" if rz == 0 else "same-as-track" if rz == zone else "other"))
+    return cls
+
+
 PRES = [None, None, "abscurv-fresh", "abscurv-stale-moved", "abscurv-stale-dropped-first-gt",
         "abscurv-stale-dropped-first-remove", "speed"]
 
@@ -84,20 +168,22 @@ def _build(case):
     T = _times(case)
     pts = [tuple(p) for p in case["pts"]]
     pre = case.get("pre")
+    if not _zone_ok(case, T):
+        raise _Outside()
 
     def feats(n):
         return {"f%d" % c: [10.0 * c + i for i in range(n)] for c in range(case.get("nf", 0))}
 
     ints = bool(case.get("ints"))
     if pre in ("abscurv-stale-dropped-first-gt", "abscurv-stale-dropped-first-remove") and T[0] >= 1000:
-        tr = gen.make_track([(pts[0][0] + 3.0, pts[0][1] - 4.0, pts[0][2])] + pts, [T[0] - 1000] + T, feats(len(T) + 1), ints=ints)
+        tr = _make_track(case, [(pts[0][0] + 3.0, pts[0][1] - 4.0, pts[0][2])] + pts, [T[0] - 1000] + T, feats(len(T) + 1))
         computeAbsCurv(tr)
         if pre.endswith("gt"):
             tr = tr > 1
         else:
             tr.removeObsList([0])
     else:
-        tr = gen.make_track(pts, T, feats(len(T)), ints=ints)
+        tr = _make_track(case, pts, T, feats(len(T)))
         if pre == "abscurv-fresh":
             computeAbsCurv(tr)
         elif pre == "abscurv-stale-moved":
@@ -112,7 +198,40 @@ def _build(case):
             tr.estimate_speed()
     if tr.size() != len(pts):
         raise HarnessError("pre-history %r changed the track size" % pre)
+    if [_ms_of(tr.getObs(i).timestamp) for i in range(tr.size())] != T:
+        raise HarnessError("the track does not carry the timestamps of the case (zone %r by %s)" % (case.get("zone"), case.get("zonehow")))
     return tr, T
+
+
+STEPNUMS = ("py", "np.float64", "np.int64", "np.int32", "np.float32")
+
+
+def _step_as(v, stepnum):
+    """the step (s or m) handed over as the numpy scalar named by the case; None if that type cannot hold the value"""
+    if stepnum in (None, "py"):
+        return v
+    if stepnum == "np.float64":
+        return np.float64(v)
+    if stepnum in ("np.int64", "np.int32"):
+        return (np.int64 if stepnum == "np.int64" else np.int32)(v) if float(v) == int(v) and 0 < v < 2 ** 31 else None
+    if stepnum == "np.float32":
+        return np.float32(v) if float(np.float32(v)) == float(v) else None
+    return None
+
+
+class _Outside(Exception):
+    """the case is outside the stated domain (number type / zone combination): answered undef"""
+
+
+def _guard(body):
+    def run(case):
+        try:
+            return body(case)
+        except _Outside:
+            return {"undef": True, "cls": ["outside:number-type-or-zone"]}
+    run.__name__ = body.__name__
+    run.__doc__ = body.__doc__
+    return run
 
 
 def _read(tr):
@@ -127,7 +246,7 @@ def _read(tr):
               and 0 <= ts.sec <= 59 and 0 <= ts.ms <= 999)
         if not ok:
             raise Violation("malformed-timestamp", "obs %d stamped %s" % (i, (ts.year, ts.month, ts.day, ts.hour, ts.min, ts.sec, ts.ms)))
-        out.append((o.position.getX(), o.position.getY(), o.position.getZ(), gen.ms_of_obstime(ts), o))
+        out.append((o.position.getX(), o.position.getY(), o.position.getZ(), _ms_of(ts), o))
     return out
 
 
@@ -230,7 +349,7 @@ def _cls_track(case, T):
         cls.append("repeated-position")
     cls.append("dyadic-times" if _dyadic(T) else "ms-times")
     cls.append(_cls_ints(case))
-    return cls
+    return cls + _cls_types(case)
 
 
 def _cls_ints(case):
@@ -240,10 +359,10 @@ def _cls_ints(case):
     return "floats:integer-valued-xy" if integral else "floats"
 
 
-def _set_ref_stamps(ref, t0, offs, how):
+def _set_ref_stamps(ref, t0, offs, how, zone=0):
     """in-place change of the timestamps of a reference track (number of fixes unchanged)"""
     for i, o in enumerate(offs):
-        ts = gen.obstime_of_ms(t0 + o)
+        ts = _obstime(t0 + o, "py", zone)
         if how == "setobs":
             ref.setObs(i, Obs(ENUCoords(-float(i), 7.0, 1.0), ts))
         else:
@@ -277,12 +396,20 @@ def body_temporal_step(case):
         return {"undef": True}
     expected = _numeric_expected(T, step_ms, 0.0)
     via = case.get("via", "resample")
-    res = _apply_temporal(tr, step, via)
-    what = "resample(%r, temporal) via %s" % (step, via)
+    stepnum = case.get("stepnum", "py")
+    arg = _step_as(step, stepnum)
+    if arg is None:
+        return {"undef": True}
+    res = _apply_temporal(tr, arg, via)
+    what = "resample(%r, temporal) via %s" % (arg, via)
+    if stepnum not in ("py", "np.float64") and res.size() == 0 and any(not e[2] for e in expected):
+        # narrow key: a step that is a number but neither a Python int nor a (subclass of) Python float selects no instant at all
+        raise Violation("temporal-numpy-step-no-instants", "%s: empty track returned, %d instants tini + k*step lie in (tini, tfin]" % (
+            what, len([e for e in expected if not e[2]])))
     got, legs = _judge_temporal(case, res, T, expected, what)
     if via != "algo":
         _check_no_features(res, got, "features-not-reset")
-    cls = _cls_track(case, T) + ["via-" + via, "int-step" if isinstance(step, int) else "float-step"]
+    cls = _cls_track(case, T) + ["via-" + via, "int-step" if isinstance(step, int) else "float-step", "step-type:" + stepnum]
     D = T[-1] - T[0]
     divides = (D / step_ms).denominator == 1
     cls.append("step-divides-duration" if divides else "step-does-not-divide")
@@ -305,7 +432,10 @@ def body_temporal_instants(case):
     tr, T = _build(case)
     if any(T[0] + o < 0 or T[0] + o > gen.MAX_MS for o in offs):
         return {"undef": True}
-    stamps = [gen.obstime_of_ms(T[0] + o) for o in offs]
+    refzone = case.get("refzone") or 0
+    if not isinstance(refzone, int) or abs(refzone) > 14:
+        return {"undef": True}
+    stamps = [_obstime(T[0] + o, "py", refzone) for o in offs]
     hist_cls = []
     if kind == "track":
         if not offs:
@@ -322,11 +452,11 @@ def body_temporal_instants(case):
         first = refpre[0]["offs"] if refpre else offs
         arg = Track([], 2)
         for i, o in enumerate(first):
-            arg.addObs(Obs(ENUCoords(-float(i), 7.0, 1.0), gen.obstime_of_ms(T[0] + o)))
+            arg.addObs(Obs(ENUCoords(-float(i), 7.0, 1.0), _obstime(T[0] + o, "py", refzone)))
         # earlier uses of the SAME reference Track object: its stamps are set in place (same number of fixes), then it
         # serves another resampling call (another track object, possibly another algorithm).  Linear calls are judged.
         for k, stp in enumerate(refpre):
-            _set_ref_stamps(arg, T[0], stp["offs"], stp.get("set", "assign"))
+            _set_ref_stamps(arg, T[0], stp["offs"], stp.get("set", "assign"), refzone)
             sh = stp.get("tshift", 0)
             c2 = dict(case, t0=case["t0"] + sh, pre=None)
             tr2, T2 = _build(c2)
@@ -349,7 +479,7 @@ def body_temporal_instants(case):
         if refpre:
             if refpre[-1]["offs"] != offs:
                 hist_cls.append("ref:stamps-changed-in-place-since-last-use")
-            _set_ref_stamps(arg, T[0], offs, case.get("refset", "assign"))
+            _set_ref_stamps(arg, T[0], offs, case.get("refset", "assign"), refzone)
             hist_cls.append("ref:reused")
         else:
             hist_cls.append("ref:fresh")
@@ -525,6 +655,7 @@ def _cls_spatial(case, lens, legs, got, on_vertex):
     if len(got) == 1:
         cls.append("only-first-fix")
     cls.append(_cls_ints(case))
+    cls.extend(_cls_types(case))
     if any(l != int(l) for l in lens):
         cls.append("non-integer-leg-length")
         if case.get("ints") and all(float(c) == int(c) for p in case["pts"] for c in p[:2]):
@@ -553,14 +684,30 @@ def body_spatial_exact(case):
     count = int(q) + 1                    # floor, exact
     tr, T = _build(case)
     via = case.get("via", "resample")
-    res = _apply_spatial(tr, ds, via)
-    what = "resample(ds=%r, spatial) via %s" % (ds, via)
-    got, legs, on_vertex = _judge_spatial(case, res, T, S, Fr(ds), count, 0, what)
+    arg = _step_as(ds, case.get("stepnum", "py"))
+    if arg is None:
+        return {"undef": True}
+    res = _apply_spatial(tr, arg, via)
+    what = "resample(ds=%r, spatial) via %s" % (arg, via)
+    try:
+        got, legs, on_vertex = _judge_spatial(case, res, T, S, Fr(ds), count, 0, what)
+    except Violation as v:
+        if case.get("stepnum") != "np.float32":
+            raise
+        # narrow key, by differential attribution: the same case with the same step value as a Python float is right
+        tr2, _ = _build(case)
+        try:
+            _judge_spatial(case, _apply_spatial(tr2, float(ds), via), T, S, Fr(ds), count, 0, what)
+        except Violation:
+            raise v
+        raise Violation("spatial-float32-step-single-precision", "the step as np.float32 makes the interpolation single precision "
+                        "(the same step as a Python float is resampled correctly): [%s] %s" % (v.key, v.msg))
     if via != "algo":
         _check_no_features(res, got, "features-not-reset")
     cls, nt = _cls_spatial(case, lens, legs, got, on_vertex)
     cls.append("ds-divides-L" if q.denominator == 1 else "ds-does-not-divide")
     cls.append("via-" + via)
+    cls.append("ds-type:" + case.get("stepnum", "py"))
     cls.append("pre-%s" % case.get("pre"))
     if Fr(ds) > S[-1]:
         cls.append("ds>L")
@@ -656,11 +803,36 @@ _T0S = st.one_of(st.integers(86400, 4102444800 - 11 * 86400).map(lambda s: s * 1
                                   gen.ms_of_fields(2021, 6, 30, 23, 58, 0)]))
 
 
+ZONES = [0, 0, 0, 0, 1, 2, -5, 12, -11, -1]
+_TN = ["py", "py", "py", "int64:sec", "int64:all", "int32:sec", "int32:all", "int64:sec"]
+_TYPES = st.integers(0, 10 * 3 * 8 * 3 - 1)
+
+
+def _with_types(case, v):
+    """one integer decides the time-zone label of the track (6 in 10 non-zero; given to the constructor / setTimeZone /
+    convertToTimeZone), the type of the timestamp fields (5 in 8 numpy) and of the coordinates (1 in 3 numpy float64)"""
+    T_end = case["t0"] + sum(case["dt"])
+    zone, how = ZONES[v % 10], ZONEHOWS[(v // 10) % 3]
+    tnum = _TN[(v // 30) % 8]
+    if tnum.startswith("int32") and T_end > INT32_MAX_MS:
+        tnum = tnum.replace("int32", "int64")
+    if zone:
+        dyadic = case["t0"] % TICK == 0 and all(d % TICK == 0 for d in case["dt"])
+        if how == "convert" and not (dyadic and case["t0"] - 1000 - HOUR * zone >= 0 and T_end - HOUR * zone <= gen.MAX_MS):
+            how = "set"
+        case["zone"], case["zonehow"] = zone, how
+    if tnum != "py":
+        case["tnum"] = tnum
+    if (v // 240) % 3 == 2:
+        case["cnum"], case["ints"] = "np64", False
+    return case
+
+
 @st.composite
 def _ttrack(draw):
     n = draw(_NS)
-    return {"t0": draw(_t0()), "dt": draw(_dts(n)), "pts": draw(_points(n)), "nf": draw(st.integers(0, 1)),
-            "pre": draw(st.sampled_from(PRES)), "ints": draw(st.booleans())}
+    return _with_types({"t0": draw(_t0()), "dt": draw(_dts(n)), "pts": draw(_points(n)), "nf": draw(st.integers(0, 1)),
+                        "pre": draw(st.sampled_from(PRES)), "ints": draw(st.booleans())}, draw(_TYPES))
 
 
 @st.composite
@@ -668,6 +840,12 @@ def strat_temporal_step_(draw):
     case = draw(_ttrack())
     D = sum(case["dt"])
     kind = draw(st.sampled_from(["divisor", "divisor", "divisor", "ticks", "ticks", "float", "float", "fraction", "fraction", "big", "int"]))
+    # the type the step is handed over in is drawn first: a numpy integer needs a whole number of seconds, a float32 a dyadic step
+    sn = draw(st.sampled_from(["py", "py", "py", "py", "np.float64", "np.float64", "np.int64", "np.int32", "np.float32", "np.float32"]))
+    if sn in ("np.int64", "np.int32"):
+        kind = "int"
+    elif sn == "np.float32" and kind in ("float", "fraction", "int"):
+        kind = "ticks"
     if kind == "int":
         step_ms = 1000 * draw(st.integers(1, 12))
     elif kind == "divisor" and D % TICK == 0:
@@ -689,6 +867,10 @@ def strat_temporal_step_(draw):
     if D / 1000.0 / step > 150:
         step = D / 1000.0 / 150
     case["step"] = step
+    if _step_as(step, sn) is None:
+        sn = "np.float64"
+    if sn != "py":
+        case["stepnum"] = sn
     case["via"] = draw(st.sampled_from(["resample", "resample", "resample-kw", "algo"]))
     if case["via"] == "algo":
         case["nf"] = 0
@@ -726,6 +908,7 @@ def strat_temporal_instants_(draw):
     case = draw(_ttrack())
     case["offs"] = draw(_offsets(case))
     case["kind"] = draw(st.sampled_from(["list", "track"]))
+    case["refzone"] = [0, 0, case.get("zone", 0), case.get("zone", 0), 3, -7][draw(st.integers(0, 5))]
     if case["kind"] == "track" and not case["offs"]:
         case["offs"] = [sum(case["dt"])]
     vias = ["resample", "resample", "resample-kw", "algo"] + (["floordiv", "floordiv"] if case["kind"] == "track" else [])
@@ -818,10 +1001,16 @@ def strat_spatial_exact_(draw):
         d8 = L8
     if L8 / d8 > 150:
         d8 = -(-L8 // 150)
-    ds = d8 // 8 if (d8 % 8 == 0 and draw(st.booleans())) else d8 / 8.0
+    sn = draw(st.sampled_from(["py", "py", "py", "py", "np.float64", "np.int64", "np.int32", "np.float32", "np.float32"]))
+    if sn in ("np.int64", "np.int32") and d8 % 8:
+        d8 = 8 * (d8 // 8 + 1)                       # a numpy integer step: whole metres
+    ds = d8 // 8 if (d8 % 8 == 0 and (sn in ("np.int64", "np.int32") or draw(st.booleans()))) else d8 / 8.0
     via = draw(st.sampled_from(["resample", "resample", "resample-default", "resample-kw", "algo"]))
-    return {"t0": draw(_t0()), "dt": draw(_dts(n)), "pts": pts, "nf": 0 if via == "algo" else draw(st.integers(0, 1)),
-            "ds": ds, "via": via, "pre": None if via == "algo" else draw(st.sampled_from(PRES)), "ints": draw(st.booleans())}
+    if _step_as(ds, sn) is None:
+        sn = "np.float64"
+    return _with_types({"stepnum": sn, "t0": draw(_t0()), "dt": draw(_dts(n)), "pts": pts, "nf": 0 if via == "algo" else draw(st.integers(0, 1)),
+                        "ds": ds, "via": via, "pre": None if via == "algo" else draw(st.sampled_from(PRES)),
+                        "ints": draw(st.booleans())}, draw(_TYPES))
 
 
 OBLIQUE = [(1, 1), (1, -1), (2, 1), (-1, 2), (1, 3), (-3, 1), (2, -3), (5, 2), (-2, -5), (1, 0), (0, 1), (3, 4), (-7, 1)]
@@ -858,9 +1047,9 @@ def strat_spatial_float_(draw):
         else:
             ds = draw(st.floats(0.01, 10.0))
         via = draw(st.sampled_from(["resample", "resample", "resample-default", "resample-kw", "algo"]))
-        return {"t0": draw(_t0()), "dt": draw(_dts(n)), "pts": pts, "nf": 0 if via == "algo" else draw(st.integers(0, 1)),
-                "ds": ds, "via": via, "pre": None if via == "algo" else draw(st.sampled_from(PRES)),
-                "ints": draw(st.sampled_from([True, True, False]))}
+        return _with_types({"t0": draw(_t0()), "dt": draw(_dts(n)), "pts": pts, "nf": 0 if via == "algo" else draw(st.integers(0, 1)),
+                            "ds": ds, "via": via, "pre": None if via == "algo" else draw(st.sampled_from(PRES)),
+                            "ints": draw(st.sampled_from([True, True, False]))}, draw(_TYPES))
     v = draw(st.lists(st.integers(0, 10 ** 9), min_size=4 * n, max_size=4 * n))
     x, y = (v[0] - 5 * 10 ** 8) * 1e-5, (v[1] - 5 * 10 ** 8) * 1e-5
     pts = [[x, y, 0.0 if v[2] % 3 == 0 else (v[3] - 5 * 10 ** 8) * 1e-5]]
@@ -882,8 +1071,9 @@ def strat_spatial_float_(draw):
     else:
         ds = draw(st.floats(0.01, 10.0))
     via = draw(st.sampled_from(["resample", "resample", "resample-default", "resample-kw", "algo"]))
-    return {"t0": draw(_t0()), "dt": draw(_dts(n)), "pts": pts, "nf": 0 if via == "algo" else draw(st.integers(0, 1)),
-            "ds": ds, "via": via, "pre": None if via == "algo" else draw(st.sampled_from(PRES)), "ints": draw(st.booleans())}
+    return _with_types({"t0": draw(_t0()), "dt": draw(_dts(n)), "pts": pts, "nf": 0 if via == "algo" else draw(st.integers(0, 1)),
+                        "ds": ds, "via": via, "pre": None if via == "algo" else draw(st.sampled_from(PRES)),
+                        "ints": draw(st.booleans())}, draw(_TYPES))
 
 
 def strat_temporal_step():
@@ -915,13 +1105,19 @@ RULE = ("Hypothesis. Tracks: 2..10 fixes, time increments regular / multiples of
         "the 1/4 lattice, ds in eighths (divisors of L, the first leg's length, ds = L, ds > L). spatial_float: float legs of 0.01..100 m in "
         "any direction, float ds; one third on the integer grid (oblique integer legs x 1..12, ds float or small integers / halves). "
         "Every generator draws 'ints' (integer-valued coordinates handed over as Python ints); positions are on a 1/4 lattice, "
-        "an integer lattice or floats. Non-trivial: at least two different time increments (temporal) or positive leg lengths (spatial) and "
+        "an integer lattice or floats. Every generator also draws one integer that decides the time-zone label of the track "
+        "(6 in 10 non-zero: +1, +2, -5, +12, -11, -1; given to the ObsTime constructor, set with setTimeZone, or reached with "
+        "convertToTimeZone from a track built that many hours earlier), the type of the timestamp fields (Python ints 3 in 8, "
+        "else seconds / all fields as numpy int64 / int32) and of the coordinates (1 in 3 numpy float64); temporal_instants "
+        "labels the instants of the list / reference track with zone 0, the track's zone, +3 or -7; temporal_step and "
+        "spatial_exact draw the type of the numeric step (Python number 4 in 10, numpy float64, int64, int32, float32) "
+        "and a step that type can hold (whole seconds or metres / multiples of 1/8). Non-trivial: at least two different time increments (temporal) or positive leg lengths (spatial) and "
         "output points in at least two different legs. Distinct = hash of the case.")
 
 SUBCHECKS = [
-    SubCheck("temporal_step", body_temporal_step, strategy=strat_temporal_step, quick=4000, thorough=150000),
-    SubCheck("temporal_instants", body_temporal_instants, strategy=strat_temporal_instants, quick=4000, thorough=150000),
-    SubCheck("temporal_npts", body_temporal_npts, strategy=strat_temporal_npts, quick=1500, thorough=50000, qshards=2),
-    SubCheck("spatial_exact", body_spatial_exact, strategy=strat_spatial_exact, quick=4000, thorough=150000),
-    SubCheck("spatial_float", body_spatial_float, strategy=strat_spatial_float, quick=3000, thorough=100000, qshards=2),
+    SubCheck("temporal_step", _guard(body_temporal_step), strategy=strat_temporal_step, quick=4000, thorough=150000),
+    SubCheck("temporal_instants", _guard(body_temporal_instants), strategy=strat_temporal_instants, quick=4000, thorough=150000),
+    SubCheck("temporal_npts", _guard(body_temporal_npts), strategy=strat_temporal_npts, quick=1500, thorough=50000, qshards=2),
+    SubCheck("spatial_exact", _guard(body_spatial_exact), strategy=strat_spatial_exact, quick=4000, thorough=150000),
+    SubCheck("spatial_float", _guard(body_spatial_float), strategy=strat_spatial_float, quick=3000, thorough=100000, qshards=2),
 ]
